@@ -170,7 +170,103 @@ def direction(ctx: Ctx, framing: str, api: tuple[int, int]) -> None:
                     "subscribe_states_subscribed": o["methods"]["subscribe_states"]["subscribed"][:5]})
 
 
+def passive_direction(ctx: Ctx) -> None:
+    """Direction monitors on the workloads of other properties' checks (voice assistant sequences, subscriptions and unsubscriptions,
+    BLE operations, re-entrant dispatch histories, multi-session client histories, reconnect-manager histories): every type the
+    independent device decoded from the client's bytes must be client- or both-originated, every type subscribed server- or both-originated."""
+    from vf.props import c12, c16, c17, c18, c19
+    from vf.sim import scenario as scen
+
+    res = ctx.res
+    scen.DIRECTION_SENT.clear()
+    scen.DIRECTION_SUBSCRIBED.clear()
+    scen.DIRECTION_FLAGS.clear()
+    sub = Ctx("C13-passive", ctx.shard, ctx.nshards, "quick", ctx.seed)
+    jobs = [("C17 voice assistant", c17.voice_assistant), ("C17 other subscriptions", c17.other_subscriptions), ("C17 unsubscribe positions", c17.unsubscribe_positions),
+            ("C17 state streams", c17.state_streams), ("C16 BLE operations", c16.shard), ("C12 dispatch histories", c12.histories),
+            ("C12 peer requests during connect", c12.peer_requests_during_connect)]
+    for label, fn in jobs:
+        before = sub.res.evaluations
+        saved_sub = dict(scen.DIRECTION_SUBSCRIBED)
+        n_flags = len(scen.DIRECTION_FLAGS)
+        try:
+            fn(sub)
+        except Exception as e:  # noqa: BLE001
+            res.inconclusive.append(f"passive direction workload {label} crashed: {e!r}")
+            continue
+        if label.startswith("C12"):
+            # the C12 harness itself subscribes a recording callback to EVERY class (client-originated ones too): its subscriptions say
+            # nothing about the library; only what the client SENT during those runs is kept
+            scen.DIRECTION_SUBSCRIBED.clear()
+            scen.DIRECTION_SUBSCRIBED.update(saved_sub)
+            scen.DIRECTION_FLAGS[n_flags:] = [f for f in scen.DIRECTION_FLAGS[n_flags:] if f["kind"] == "sent"]
+        res.count(f"S/passive-workload-runs/{label}", sub.res.evaluations - before)
+    rng = ctx.rng.__class__(f"C13/{ctx.seed}/{ctx.shard}")
+    for i in range(12 if ctx.thorough else 4):
+        c19.run_history(c19.gen_history(rng))
+        c18.run_history({"variant": rng.choice(c18.VARIANTS), "hist": c18.gen_history(rng)})
+        res.count("S/passive-workload-runs/C18+C19 histories", 2)
+    pr = protoparse.load_api()
+    for name, n in scen.DIRECTION_SENT.items():
+        res.evaluations += 1
+        res.count("S/passive-sent-observations", n)
+        res.seen("types_sent_by_client", name)
+        res.sig("S-sent", name)
+    for name, n in scen.DIRECTION_SUBSCRIBED.items():
+        res.evaluations += 1
+        res.count("S/passive-subscribed-observations", n)
+        res.seen("types_subscribed_by_client", name)
+        res.sig("S-sub", name)
+    for f in scen.DIRECTION_FLAGS:
+        pm = pr.messages.get(f["type"])
+        if f["kind"] == "sent":
+            key = "C13/sent-undefined-type" if pm is None else f"C13/sent-server-only-type/{f['type']}"
+            res.violation(key, f"the client sent {f['type']} ({'not defined in api.proto' if pm is None else 'marked SOURCE_SERVER'}) during a passive workload",
+                          {"method": "<passive>", "type": f["type"]}, trace=f["trace"])
+        else:
+            res.violation(f"C13/subscribed-client-only-type/{f['type']}", f"the client subscribed to {f['type']} (undefined, without id or SOURCE_CLIENT) during a passive workload",
+                          {"method": "<passive>", "type": f["type"]}, trace=f["trace"])
+
+
+def lookup_behaviour(ctx: Ctx) -> None:
+    """Positional lookup as the receive path performs it: a frame of EVERY declared id (empty payload and a generated valid payload), sent to a
+    live session that has a recording subscriber for every class, must reach the subscriber as an instance of exactly the class api.proto names."""
+    from vf import msggen
+    from vf.props import c12
+    from vf.sim.scenario import Sim
+
+    res = ctx.res
+    pr = protoparse.load_api()
+    internal = {"PingRequest", "GetTimeRequest", "DisconnectRequest"}   # answered by the connection itself; DisconnectRequest closes it
+    for fi, framing in enumerate(("plain", "noise")):
+        if fi % ctx.nshards != ctx.shard % 2 or ctx.shard > 1:
+            continue
+        with Sim() as sim:
+            live = c12.Live(sim, framing)
+            rng = ctx.rng.__class__(f"C13/lookup/{ctx.seed}")
+            for ty in sorted(pr.by_id):
+                m = pr.by_id[ty]
+                if m.name == "DisconnectRequest":
+                    continue
+                cls = getattr(live.pb, m.name)
+                for payload in (b"", msggen.random_message(cls, rng).SerializeToString()):
+                    live.ensure()
+                    n0 = len(live.log)
+                    live.dconn.send_id(ty, payload, 0.0)
+                    sim.run_for(0.01)
+                    got = [type(x).__name__ for _, x in live.log[n0:]]
+                    res.evaluations += 1
+                    res.count("S/lookup-behaviour-frames")
+                    res.sig("lookup", ty, bool(payload))
+                    if got != [m.name]:
+                        res.violation(f"C13/lookup-behaviour/{'dropped' if not got else 'wrong-class'}",
+                                      f"{framing}: frame with id {ty} ({m.name}, {len(payload)} payload bytes) reached subscribers as {got or 'nothing'}",
+                                      {"id": ty, "framing": framing, "payload": payload.hex()}, trace=sim.trace(20))
+
+
 def shard(ctx: Ctx) -> None:
+    passive_direction(ctx)
+    lookup_behaviour(ctx)
     if ctx.shard == 0:
         tables(ctx)
         ctx.res.sample({"obligation": "positional-lookup", "id": 25, "expected": "SensorStateResponse"})
